@@ -35,7 +35,7 @@ BS, SQ = ord("\\"), ord("'")
 class Ctx:
     def __init__(self):
         def keep(n):
-            return n.startswith(("transfer_file_to_remote", "transfer_file_from_remote", "discover_remote_with_meta", "apply_remote_deletes", "create_remote_dirs"))
+            return n.startswith(("transfer_file_to_remote", "transfer_file_from_remote", "discover_remote_with_meta", "apply_remote_deletes", "create_remote_dirs", "remove_stale", "incremental::remove_stale"))
         self.mir, self.mir_path, self.dump_s = env.load("bin", keep)
         self.idx = env.impl_index(self.mir)
         self.enums = env.source_enums()
@@ -813,3 +813,61 @@ def list_native_validation(R, pid):
                 return
     R.validation["cases"] += n
     R.add("%s/push/lists/native" % pid, "holds", queries=0, solver_s=0.0, detail="the real push with a newline inside a directory name / a stale destination path touches nothing outside the destination (dev+release); validation")
+
+
+def pull_deletes_obligation(ctx, R, prover, pid, path_len=2, n_paths=2):
+    """apply_remote_deletes, Dir::Pull branch (with remove_stale) from MIR: exactly the listed paths are removed under the local root,
+    and a removal that fails for another reason than `the file is already gone` is recorded as a failure - once each"""
+    ex, ev = _mk(ctx, path_len)
+    _install_list_models(ex, ev)
+    rels = [sym_text(ex, "rel%d" % i, path_len) for i in range(n_paths)]
+    nrel = ex.fresh_int("n_paths", lo=0, hi=n_paths)
+    lst = VList(rels, nrel, "PathBuf")
+    LOCAL = z3.Int("LOCAL_ROOT")
+    rms = []
+
+    def join(ex_, st, args, dest_ty, func, where):
+        return VStruct("JoinedText", [VInt(fsmodels.path_term(ex_, st, args[0]), "usize"), fsmodels._deep(ex_, st, args[1])])
+
+    def rm(ex_, st, args, dest_ty, func, where):
+        okr = ex_.fresh_bool("remove_ok")
+        kind = ex_.fresh_int("errkind", lo=1, hi=64)
+        rms.append({"guard": st.guard, "target": fsmodels._deep(ex_, st, args[0]), "ok": okr, "kind": kind, "seq": len(rms)})
+        return fsmodels.io_result(ex_, okr, kind=kind)
+    ex.models = [(re.compile(r"^Path::join::<"), join, "Path::join (root, relative text)"),
+                 (re.compile(r"^std::fs::remove_file::<"), rm, "fs::remove_file (recorded; any outcome)"),
+                 (re.compile(r"^<PathBuf as Deref>::deref$|^PathBuf::as_path$|^<PathBuf as AsRef<Path>>::as_ref$"), lambda ex_, st, a, d, f, w: VRef("val", val=fsmodels._deep(ex_, st, a[0])), "path views"),
+                 (re.compile(r"^<(std::path::)?Display<'_> as ToString>::to_string$"), lambda ex_, st, a, d, f, w: VStruct("String", [fsmodels._deep(ex_, st, a[0])]) if isinstance(fsmodels._deep(ex_, st, a[0]), VSeq) else VOpaque("text"), "Display::to_string (the path's text)"),
+                 (re.compile(r"^std::io::Error::kind$"), fsmodels._err_kind, "io::Error::kind"),
+                 ] + ex.models
+    enums = ctx.enums.get("Dir") or {}
+    if "Pull" not in enums:
+        raise Inconclusive("enum Dir { .., Pull } not found")
+    vals = {"dir": VEnum("Dir", I(enums["Pull"]), {}), "host": VRef("val", val=strv(z3.Int("HOST"))), "remote_root": VRef("val", val=strv(z3.Int("REMOTE_ROOT"))),
+            "local_root": VRef("val", val=pathv(LOCAL)), "dels": VRef("val", val=lst), "?progress": VRef("val", val=VStruct("TransferProgress", []))}
+    fn, st, poll = _setup(ctx, ex, "apply_remote_deletes::{closure#0}", vals)
+    done = poll.discr == 0
+    NOTFOUND = fsmodels.ERRKIND.get("NotFound", 1)
+    conds = []
+    for k, r in enumerate(rms):
+        before = sum([z3.If(rms[j]["guard"], 1, 0) for j in range(k)]) if k else I(0)
+        t = r["target"]
+        shape = isinstance(t, VStruct) and t.name == "JoinedText" and isinstance(t.f[1], VSeq)
+        if not shape:
+            conds.append(z3.Not(r["guard"]))
+            continue
+        for i in range(n_paths):
+            conds.append(z3.Implies(z3.And(r["guard"], before == i), z3.And(i < nrel, t.f[0].t == LOCAL, t.f[1].len == rels[i].len,
+                                                                                     *[z3.Implies(j < rels[i].len, t.f[1].at(I(j)) == rels[i].at(I(j))) for j in range(path_len)])))
+    n_rm = sum([z3.If(r["guard"], 1, 0) for r in rms]) if rms else I(0)
+    n_fail = sum([z3.If(z3.And(r["guard"], z3.Not(r["ok"]), r["kind"] != NOTFOUND), 1, 0) for r in rms]) if rms else I(0)
+    n_err = sum([z3.If(g, 1, 0) for g in ev.get("errs", [])]) if ev.get("errs") else I(0)
+    goals = {"exactly-the-listed-paths-are-removed,-each-once,-under-the-local-root": z3.And(z3.Implies(done, n_rm == nrel), *conds),
+             "a-removal-that-fails-(other-than-`already-gone`)-is-recorded-as-a-failure,-once;-nothing-else-is": z3.Implies(done, n_err == n_fail),
+             "no-ssh-is-run-for-a-pull's-deletes": z3.BoolVal(not ev["argv"])}
+    from . import c04
+
+    def witness(name, model, neg):
+        return c04.undeletable_witness(R, pid, ("pull",))
+    prover.prove(ex, goals, "%s/pull/remove-stale" % pid, "0..%d relative paths (symbolic texts); every removal may fail with any error kind" % n_paths, [fn.name, "remove_stale"], witness,
+                 covers={"completes": done, "two-removals": z3.And(done, nrel == 2)})
